@@ -10,7 +10,15 @@ Histories come from TLC (EngineObsGen over the cyclic family of
 tools/gen_cyc.py: all digraphs on <=3 ring nodes incl. self-loops, a sample on
 4, guarded edges switched by input edits); they are replayed sequentially and,
 for the concurrent part, queried from many tasks at once (different entry
-points into the cycle) on a multi-threaded runtime under a watchdog."""
+points into the cycle) on a multi-threaded runtime under a watchdog.
+
+Mechanism level: specs/EngineCyc.tla (detection in the computing table, unwinding,
+what a cut query records, repair of cut queries in later sessions) is model-checked
+(EngineCycMC) and bound to the code executor run by executor run: behaviours printed
+by the model with its prediction (value of every query, every executor run with its
+reads and output / cut) are replayed and compared; the counterexamples of the variant
+the code does NOT implement (SccFix = "retain", the defect FX_SCC_VALUE_RETAINED) are
+replayed as directed tests."""
 import json
 import os
 import time
@@ -21,6 +29,117 @@ import vp
 PID = "C06"
 KINDS = {"query_value", "read_value", "query_panicked", "no_progress", "executor_still_running_at_end",
          "cycle_member_completed", "cycle_search_wrong_answer"}
+
+
+def _json_lines(out, path):
+    n = 0
+    with open(path, "w") as f:
+        for line in out.splitlines():
+            if line.startswith('"{'):
+                f.write(json.loads(line) + "\n"); n += 1
+    return n
+
+
+def engine_cyc(bd, wd, quick, seed, traces, case_files, verdict):
+    """The cycle mechanism model EngineCyc: design check and conformance.  Appends the traces it
+    records to `traces` (they are judged by the P-layer like every other trace)."""
+    status = {f["id"]: f["status"] for f in json.load(open(os.path.join(vp.ROOT, "known_findings.json")))["findings"]}
+    coded = "forget" if status.get("FX_SCC_VALUE_RETAINED") == "fixed" else "retain"
+    other = "retain" if coded == "forget" else "forget"
+    ev = {"as_coded_variant": coded}
+    wit = os.path.join(wd, "cycm_witness.ndjson")
+    wprog = json.loads(open(os.path.join(vp.ROOT, "witness", "c06_cases.ndjson")).readline())["prog"]
+    open(wit, "w").write(json.dumps({"prog": wprog}) + "\n")
+    fam = os.path.join(wd, "cycm_family.ndjson")
+    vp.run(["python3", os.path.join(vp.ROOT, "tools", "gen_cyc.py"), fam, str(seed + 7),
+            "40" if quick else "200", "80" if quick else "400"])
+    lines = [l for l in open(fam) if l.strip()]
+    small = os.path.join(wd, "cycm_family_small.ndjson")
+    open(small, "w").writelines([l for l in lines if len(json.loads(l)["prog"]["nodes"]) <= 6])
+    open(fam, "a").write(json.dumps({"prog": wprog}) + "\n")
+    envw = {"FAMILY": wit, "SHARD": "0", "SHARDS": "1"}
+    envf = {"FAMILY": fam, "SHARD": "0", "SHARDS": "1"}
+    # -- design: the defect exists in the "retain" variant, the coded variant holds
+    r_ret = vp.tlc("EngineCycMC", cfg="EngineCycMC_retain.cfg", env=envw, workers=4, timeout=600, check_ok=False)
+    ev["retain_variant_refuted_on_witness"] = "Correct" in r_ret["invariant_violated"]
+    if coded == "forget" and not ev["retain_variant_refuted_on_witness"]:
+        raise vp.ToolError("EngineCyc: the retain variant is not refuted on the witness program:\n" + r_ret["out"][-2000:])
+    cfgc = os.path.join(wd, "EngineCycMC_coded.cfg")
+    open(cfgc, "w").write(open(os.path.join(vp.SPECS, f"EngineCycMC_{coded}.cfg")).read())
+    if quick:
+        cfgs = os.path.join(wd, "EngineCycMC_coded_sim.cfg")
+        open(cfgs, "w").write(open(cfgc).read().replace("MaxEpochs = 2", "MaxEpochs = 3"))
+        r_mc = vp.tlc("EngineCycMC", cfg=cfgs, env=envf, workers=4, timeout=600, check_ok=False,
+                      extra=["-simulate", "num=800", "-depth", "40", "-seed", str(seed)])
+        ev["coded_variant_check"] = {"mode": "simulate num=800 depth=40, MaxEpochs=3", "programs": len(lines) + 1}
+    else:
+        r_mc = vp.tlc("EngineCycMC", cfg=cfgc, env={"FAMILY": small, "SHARD": "0", "SHARDS": "1"}, workers=8,
+                      timeout=3000, check_ok=False, xmx="8g")
+        ev["coded_variant_check"] = {"mode": "exhaustive, MaxEpochs=2 MaxSets=1 MaxQueries=2, programs of <= 6 nodes",
+                                     "programs": sum(1 for _ in open(small)), "distinct_states": r_mc["distinct"]}
+    if coded == "forget" and (r_mc["invariant_violated"] or "Error:" in r_mc["out"]):
+        raise vp.ToolError("EngineCyc: the coded variant violates Correct in the model:\n" + r_mc["out"][-3000:])
+    ev["coded_variant_holds"] = not r_mc["invariant_violated"]
+    states = r_ret["distinct"] + r_mc["distinct"]
+    # -- S->I: behaviours with the model's prediction, replayed and compared run by run
+    cfgg = os.path.join(wd, "EngineCycMC_gen.cfg")
+    open(cfgg, "w").write(open(os.path.join(vp.SPECS, "EngineCycMC_gen.cfg")).read().replace('SccFix = "fresh"', f'SccFix = "{coded}"'))
+    r_gen = vp.tlc("EngineCycMC", cfg=cfgg, env=envf, workers=1, timeout=1500, check_ok=False,
+                   extra=["-simulate", f"num={400 if quick else 6000}", "-depth", "40", "-seed", str(seed + 3)])
+    beh = os.path.join(wd, "cycm_beh.ndjson")
+    nbeh = _json_lines(r_gen["out"], beh)
+    if nbeh == 0:
+        raise vp.ToolError("EngineCycMC generated no behaviour:\n" + r_gen["out"][-2000:])
+    tr = os.path.join(wd, "cycm_replay.ndjson")
+    ec.eng_seq(bd, tr, mode="replay", cyc=1, **{"in": beh})
+    traces.append((tr, "EngineCyc behaviours with predictions"))
+    case_files[tr] = beh
+    p = vp.run(["python3", os.path.join(vp.ROOT, "tools", "cyc_conform.py"), "compare", beh, tr])
+    cmp_ = json.loads(p.stdout.strip().splitlines()[-1])
+    ev["predicted_behaviours"] = {k: cmp_[k] for k in ("behaviours", "queries_compared", "executor_runs_compared", "mismatches")}
+    drift = {"value": 0, "runs": 0, "model_err": 0}
+    for m in cmp_["first"]:
+        drift[m["kind"]] = drift.get(m["kind"], 0) + 1
+    ev["first_mismatch"] = cmp_["first"][:1]
+    # a judged query whose value differs from the model's is a violation in its own right (the coded
+    # variant is Correct in the model, so the model's value IS the reference there)
+    for m in cmp_["first"]:
+        if m["kind"] == "value" and coded == "forget":
+            judged_bad = [i for i, (a, b) in enumerate(zip(m["model_queries"], m["impl_queries"])) if a != b and m["judged"][i]]
+            if judged_bad or m["panics"] or len(m["model_queries"]) != len(m["impl_queries"]):
+                verdict.violation(f"query values differ from the mechanism model EngineCyc ({coded}): model {m['model_queries']} "
+                                  f"impl {m['impl_queries']}",
+                                  {"property": PID, "origin": "EngineCyc prediction", "case": m["case"], "mismatch": m})
+    if cmp_["mismatches"]:
+        vp.log(f"[C06] MODEL-DRIFT: {cmp_['mismatches']} of {cmp_['behaviours']} behaviours differ from EngineCyc's prediction "
+               f"(first kinds: {drift})")
+    # -- directed: counterexamples of the variant the code does not implement
+    cfgx = os.path.join(wd, "EngineCycMC_cex.cfg")
+    t = open(os.path.join(vp.SPECS, "EngineCycMC_cex.cfg")).read().replace('SccFix = "retain"', f'SccFix = "{other}"')
+    if quick:
+        t = t.replace("MaxQueries = 2", "MaxQueries = 1")
+    open(cfgx, "w").write(t)
+    r_cex = vp.tlc("EngineCycMC", cfg=cfgx, env=envw if quick else envf, workers=4, timeout=1500, check_ok=False)
+    cex = os.path.join(wd, "cycm_cex.ndjson")
+    ncex = _json_lines(r_cex["out"], cex)
+    states += r_cex["distinct"]
+    ev["counterexamples_of_other_variant"] = {"variant": other, "histories": ncex}
+    if other == "retain" and ncex == 0:
+        raise vp.ToolError("EngineCycMC: no counterexample of the retain variant was generated:\n" + r_cex["out"][-2000:])
+    if ncex:
+        if ncex > 400:
+            keep = [l for i, l in enumerate(open(cex)) if i % (ncex // 400 + 1) == 0]
+            open(cex, "w").writelines(keep)
+        trx = os.path.join(wd, "cycm_cex_replay.ndjson")
+        ec.eng_seq(bd, trx, mode="replay", cyc=1, **{"in": cex})
+        traces.append((trx, f"counterexamples of EngineCyc variant {other}"))
+        case_files[trx] = cex
+        p = vp.run(["python3", os.path.join(vp.ROOT, "tools", "cyc_conform.py"), "compare", cex, trx])
+        c2 = json.loads(p.stdout.strip().splitlines()[-1])
+        ev["counterexamples_of_other_variant"].update({"replayed": c2["behaviours"],
+                                                       "impl_differs_from_that_variant": c2["mismatches"]})
+    ev["model_states"] = states
+    return ev, states
 
 
 def run(tier, seed):
@@ -91,6 +210,8 @@ def run(tier, seed):
                 "--tasks", str(tasks), "--runs", str(60 if quick else 600), "--phases", "2", "--pertask", "4",
                 "--sleepus", "150", "--seed", str(seed * 10 + i), "--out", tc], timeout=3000)
         traces.append((tc, f"concurrent entry workers={workers} tasks={tasks}"))
+    case_files = {tr: cases}
+    cyc_mechanism, cyc_states = engine_cyc(bd, wd, quick, seed, traces, case_files, verdict)
     # design level: the cycle search transcribed step by step (CycleSearch.tla) meets its contract on every
     # digraph of 4 computing queries in every breadth-first order; its two mutations are refuted
     cs = vp.tlc("CycleSearch", cfg="CycleSearch_asis.cfg", workers=4, timeout=900, check_ok=False, xmx="6g")
@@ -101,15 +222,17 @@ def run(tier, seed):
     cycle_search_model = {"as_coded_meets_contract": cs["ok"], "distinct_states": cs["distinct"],
                           "single_backward_sweep_refuted": "MarksTheCycle" in cs_sweep["invariant_violated"],
                           "no_visited_set_does_not_terminate": "Terminates" in cs_nv["invariant_violated"]}
-    states = gstates + cs["distinct"]
+    states = gstates + cs["distinct"] + cyc_states
     trans = cs["generated"]
     events = 0
     stats = {}
     by_kind = {}
     viols = []
     nruns = 0
-    for path, origin in traces:
-        res, rr = ec.validate(path, path + ".result.json", timeout=3000)
+    from concurrent.futures import ThreadPoolExecutor
+    with ThreadPoolExecutor(max_workers=3) as ex:
+        validated = list(ex.map(lambda po: ec.validate(po[0], po[0] + ".result.json", timeout=3000), traces))
+    for (path, origin), (res, rr) in zip(traces, validated):
         states += rr["distinct"]; trans += rr["generated"]; events += res["events"]
         for k, v in res["stats"].items():
             stats[k] = stats.get(k, 0) + v
@@ -124,9 +247,10 @@ def run(tier, seed):
         evs = vp.read_ndjson(path)
         run_events, start = vp.run_containing(evs, v["at"])
         case = None
-        if origin.startswith("sequential"):
+        if path in case_files:
             run_idx = sum(1 for e in evs[:v["at"] - 1] if e.get("e") == "reset")
-            case = [json.loads(l) for l in open(cases)][run_idx]
+            c = [json.loads(l) for l in open(case_files[path])][run_idx]
+            case = {"prog": c["prog"], "actions": c["actions"]}
         verdict.violation(f"{v['kind']} node={v['n']} got={v['got']} want={v['want']} ({origin})",
                           {"property": PID, "violation": v, "origin": origin, "case": case,
                            "events": run_events[:120]})
@@ -137,6 +261,7 @@ def run(tier, seed):
         "traces_validated_against_impl": nruns,
         "samples": [{"tlc_generated_case": sample_case}],
         "cycle_search_model": cycle_search_model,
+        "cycle_mechanism_model_EngineCyc": cyc_mechanism,
         "cyclic_programs": nprogs,
         "histories_from_tlc": nb,
         "events_validated": events,
